@@ -769,6 +769,10 @@ func ParseVarDeclareStmt(p *ParserZH) *syntax.VarDeclareStmt {
 			}
 			vNode.AssignPair = append(vNode.AssignPair, assignPair)
 		})
+		// a block of separators only declares nothing: 令： needs at least one pair
+		if len(vNode.AssignPair) == 0 {
+			panic(p.getInvalidSyntaxCurr())
+		}
 	} else {
 		// #02. consume identifier declare list (comma list) inline
 		// there is ONLY ONE vdAssignPair along the statement!
